@@ -154,10 +154,15 @@ func (e *Engine) verifyFnOnce(fn *ssa.Function, opts *VCOpts, post func(fr *Fram
 			}
 			env.bindResults(fn, all)
 			for i, en := range ct.Ensures {
+				if !opts.checksTag(en.Tag) {
+					continue
+				}
 				t, err := env.evalBool(en.Expr)
 				if err != nil {
-					q.note(fmt.Sprintf("contract of %s: ensures %d: %v", fnKey(fn), i, err))
-					res.Unsupported = append(res.Unsupported, fmt.Sprintf("ensures %d: %v", i, err))
+					if !ct.Default {
+						q.note(fmt.Sprintf("contract of %s: ensures %d: %v", fnKey(fn), i, err))
+						res.Unsupported = append(res.Unsupported, fmt.Sprintf("ensures %d: %v", i, err))
+					}
 					continue
 				}
 				q.addObligation(fr, "post", en.Text, r.ins.Pos(), r.reach, t)
